@@ -83,6 +83,10 @@ OPERATORS = {
 
 OPERATORS_RE = re.compile('^(?P<oper>(=|<>|<=?|>=?))?(?P<value>.*)$')
 
+# text that excel reads as a number: not python's 'inf', 'nan' or '1_0'
+NUMERIC_TEXT_RE = re.compile(
+    r'\s*[-+]?(\d+\.?\d*|\.\d+)([eE][-+]?\d+)?\s*$', re.ASCII)
+
 PYTHON_AST_OPERATORS = {
     'Eq': operator.eq,
     'Lt': operator.lt,
@@ -955,6 +959,8 @@ def uniqueify(seq):
 
 
 def is_number(value):
+    if isinstance(value, str) and not NUMERIC_TEXT_RE.match(value):
+        return False
     try:
         float(value)
         return True
@@ -978,6 +984,9 @@ def coerce_to_number(value, convert_all=False):
     # True and False strings become numbers
     if convert_all and value.upper() in ('TRUE', 'FALSE', EMPTY):
         return int(len(value) == 4)
+
+    if not NUMERIC_TEXT_RE.match(value):
+        return value
 
     try:
         if '.' not in value:
